@@ -3,6 +3,7 @@ package c20
 import (
 	"errors"
 	"fmt"
+	"github.com/go-kid/ioc/container/processors"
 	"reflect"
 	"runtime"
 	"sort"
@@ -93,6 +94,11 @@ func (c *Closer) Close() error {
 	return nil
 }
 
+// plainTagScan: the embeddable tag scanner with default settings (no NodeType, no handler).
+type plainTagScan struct {
+	processors.DefaultTagScanDefinitionRegistryPostProcessor
+}
+
 var freshTag int64
 
 func TestRaces(t *testing.T) {
@@ -124,6 +130,10 @@ func TestRaces(t *testing.T) {
 				sc.yields[n] = rapid.IntRange(0, 10).Draw(t, "yield")
 			}
 			comps = append(comps, sc)
+		}
+		// now and then a user scanner built on the library's embeddable scanner with nothing but a tag configured
+		if rapid.IntRange(0, 2).Draw(t, "defaultscanner") == 0 {
+			comps = append(comps, &plainTagScan{processors.DefaultTagScanDefinitionRegistryPostProcessor{Tag: "c20tag"}})
 		}
 		// a few components that only carry configuration points (value / prop / prefix tags of every flavour): the tag
 		// scanners visit them in parallel with everything else
